@@ -27,13 +27,14 @@ def handle (line : String) : Out :=
       let t : Tx := { inQty := inq, mint := mint, outs := outs }
       let model := match run t with
         | .decodeErr => "decode-err"
-        | .accepted => "acc"
-        | .notConserved => "rej:ValueNotConservedUtxoError"
+        | .accepted => "pure=1 acc"
+        | .notConserved => "pure=1 rej:ValueNotConservedUtxoError"
       -- spec (property text): no accepted transaction has an output quantity that is
       -- negative or above 2^64−1, and none creates tokens: Σ outputs = inputs + mint
       let bad := (quantities t).any (fun q => q < 0 || q > maxU64)
       let created := (quantities t).sum ≠ (inq : Int) + mint
-      let spec := if bad || created then "decode-err||rej:*" else "*"
+      -- validation is a pure function of the transaction (`pure=1`, see harness/c08.go)
+      let spec := if bad || created then "decode-err||pure=1 rej:*" else "decode-err||pure=1 *"
       { model := model, spec := spec }
     | _, _, _, _ => badOp
   | _ => badOp
